@@ -544,6 +544,132 @@ fn run_raw(c: &RawCase) -> CaseResult {
     }))
 }
 
+// ---------------------------------------------------------------------------------------------
+// valid frames arriving in pieces: a foreign peer (or a send window that runs out) may deliver a frame's length prefix and
+// body in any number of separate writes, with the receiver polled in between
+
+#[derive(Debug, Clone, Serialize, Deserialize)]
+pub struct PiecesCase {
+    /// maximum of the varint codec (None = unbounded)
+    pub max: Option<u32>,
+    /// frame lengths (classes: 0 -> 0, 1 -> 1, 2 -> 127, 3 -> 128, 4 -> 300, 5 -> 16383, 6 -> 16384, 7 -> 70000)
+    pub frames: Vec<u8>,
+    /// where the wire bytes are cut into separate writes: per frame, cuts inside the prefix (bit k = cut after prefix byte
+    /// k) and a cut position inside the body (per mille, 0 = none)
+    pub cuts: Vec<(u8, u16)>,
+    /// how often the reader is polled between two pieces
+    pub polls: u8,
+    pub chunks: [ChunkScript; 2],
+}
+
+fn pieces_strategy() -> impl Strategy<Value = PiecesCase> {
+    (
+        // a bounded codec only: if the stream were mis-framed, body bytes read as a length prefix would make the unbounded
+        // codec allocate whatever they spell (and abort the process instead of failing the case)
+        prop_oneof![Just(Some(70_000u32)), Just(Some(300_000u32))],
+        prop::collection::vec(0u8..8, 1..5),
+        prop::collection::vec((0u8..8, prop_oneof![Just(0u16), 1u16..1000]), 5),
+        1u8..4,
+        [chunk_script_strategy(), chunk_script_strategy()],
+    )
+        .prop_map(|(max, frames, cuts, polls, chunks)| PiecesCase { max, frames, cuts, polls, chunks })
+}
+
+fn run_pieces(c: &PiecesCase) -> CaseResult {
+    let lens = [0usize, 1, 127, 128, 300, 16_383, 16_384, 70_000];
+    let codec = Codec::Varint(c.max);
+    let chunks = c.chunks.clone();
+    let frames: Vec<Vec<u8>> = c.frames.iter().enumerate().map(|(i, k)| fill_bytes(0x9100 + i as u64, lens[*k as usize % 8])).collect();
+    // the pieces
+    let mut pieces: Vec<Vec<u8>> = Vec::new();
+    let mut split_prefix = false;
+    for (i, f) in frames.iter().enumerate() {
+        let (pcut, bcut) = c.cuts.get(i).cloned().unwrap_or((0, 0));
+        let prefix = crate::common::uvarint(f.len() as u64);
+        let mut cur: Vec<u8> = Vec::new();
+        for (k, b) in prefix.iter().enumerate() {
+            cur.push(*b);
+            if pcut & (1 << k) != 0 && k + 1 < prefix.len() {
+                pieces.push(std::mem::take(&mut cur));
+                split_prefix = true;
+            }
+        }
+        if pcut & 0x4 != 0 {
+            // also between prefix and body
+            pieces.push(std::mem::take(&mut cur));
+        }
+        if bcut > 0 && f.len() > 1 {
+            let at = (f.len() * bcut as usize / 1000).clamp(1, f.len() - 1);
+            cur.extend_from_slice(&f[..at]);
+            pieces.push(std::mem::take(&mut cur));
+            cur.extend_from_slice(&f[at..]);
+        } else {
+            cur.extend_from_slice(f);
+        }
+        if !cur.is_empty() {
+            pieces.push(cur);
+        }
+    }
+    let polls = c.polls;
+    let expect = frames.clone();
+    let res = block_on_paused(async move {
+        let Pair { writer: _w, mut reader, raw_writer, _tasks, _controls } = setup(&chunks, to_codec(codec), true).await?;
+        let mut raw = raw_writer.expect("raw writer");
+        let mut got: Vec<Vec<u8>> = Vec::new();
+        let mut failed: Option<String> = None;
+        for p in &pieces {
+            raw.write_all(p).await.map_err(|e| CaseFail::new("C04/harness-yamux-write-failed", format!("{e:?}")))?;
+            raw.flush().await.map_err(|e| CaseFail::new("C04/harness-yamux-write-failed", format!("{e:?}")))?;
+            for _ in 0..polls {
+                // let the connection tasks move the bytes, then poll the reader once
+                for _ in 0..8 {
+                    tokio::task::yield_now().await;
+                }
+                match futures::poll!(reader.next()) {
+                    std::task::Poll::Ready(Some(Ok(m))) => got.push(m.to_vec()),
+                    std::task::Poll::Ready(Some(Err(e))) => {
+                        failed = Some(format!("{e:?}"));
+                        break;
+                    }
+                    std::task::Poll::Ready(None) => {
+                        failed = Some("closed".into());
+                        break;
+                    }
+                    std::task::Poll::Pending => {}
+                }
+            }
+            if failed.is_some() {
+                break;
+            }
+        }
+        raw.close().await.map_err(|e| CaseFail::new("C04/harness-yamux-write-failed", format!("{e:?}")))?;
+        if failed.is_none() {
+            for _ in 0..64 {
+                match tokio::time::timeout(Duration::from_secs(600), reader.next()).await {
+                    Err(_) => {
+                        failed = Some("stalled".into());
+                        break;
+                    }
+                    Ok(None) => break,
+                    Ok(Some(Err(e))) => {
+                        failed = Some(format!("{e:?}"));
+                        break;
+                    }
+                    Ok(Some(Ok(m))) => got.push(m.to_vec()),
+                }
+            }
+        }
+        Ok::<_, CaseFail>((got, failed))
+    });
+    let (got, failed) = res?;
+    ensure!(failed.is_none(), "C04/valid-frames-in-pieces-refused", "the reader ended with {:?} after {} of {} valid frames (lengths {:?})", failed, got.len(), expect.len(), expect.iter().map(|f| f.len()).collect::<Vec<_>>());
+    ensure!(got.len() == expect.len(), "C04/received-sequence-differs-from-sent", "{} frames received, {} sent in pieces (lengths {:?} vs {:?})", got.len(), expect.len(), got.iter().map(|f| f.len()).collect::<Vec<_>>(), expect.iter().map(|f| f.len()).collect::<Vec<_>>());
+    for (k, (g, e)) in got.iter().zip(expect.iter()).enumerate() {
+        ensure!(g == e, "C04/received-sequence-differs-from-sent", "frame #{k}: got {} bytes, sent {} bytes (or different content)", g.len(), e.len());
+    }
+    Ok(CaseOk::trivial().nt(split_prefix).class_if(split_prefix, "length-prefix-split-across-writes").class("frames-in-pieces"))
+}
+
 pub fn run(ctx: &mut Ctx) {
     ctx.rule = "case = codec (Identity n in {1,2,10,1023,1024,1025,4096,70000}; UnsignedVarint max in {0,1,127,128,16383,16384,300000}; UnsignedVarint(None) with sizes up to \
         512 KiB) x message-size sequence biased to {0, 1, max-1, max, max+1 (must be refused), > 256 KiB yamux window} x API (SinkExt::send, feed*k + flush, send_framed) x reader \
@@ -559,5 +685,6 @@ pub fn run(ctx: &mut Ctx) {
     ];
     let t = ctx.tier;
     ctx.campaign("roundtrip", CampaignCfg::new(t.pick(2_500, 480_000)).shards(16).shrink_iters(400), strategy, run_case);
+    ctx.campaign("pieces", CampaignCfg::new(t.pick(3_000, 240_000)).shards(16), pieces_strategy, run_pieces);
     ctx.campaign("raw-injection", CampaignCfg::new(t.pick(4_000, 800_000)).shards(16), raw_strategy, run_raw);
 }
